@@ -1,44 +1,89 @@
 ------------------------------ MODULE PrioProvider ------------------------------
-(* C44, second clause -- provider.NewPrioritizedProvider: streams are drained in order; a key
-   already emitted by an EARLIER stream is suppressed; a stream whose KeyChanFunc fails is
-   skipped (best effort).  Keys emitted by the last stream are not remembered (the code only
-   marks keys of non-last streams), so the last stream may repeat its own duplicates.       *)
+(* C44, second clause -- the key-provider combinators of provider/provider.go.  A combinator
+   returns ONE KeyChanFunc that the reprovider invokes again at every reprovide pass, so the
+   model runs `Passes` consecutive invocations ("passes") of the same function over the same
+   streams and states the clause for EVERY pass: nothing may be carried from pass to pass.
+
+   kind "prio"    provider.NewPrioritizedProvider: streams are drained in order; a key already
+                  emitted by an EARLIER stream (in this pass) is suppressed; a stream whose
+                  KeyChanFunc fails is skipped (best effort).  Keys emitted by the last stream
+                  are not remembered (the code only marks keys of non-last streams), so the
+                  last stream may repeat its own duplicates.
+   kind "bufprio" NewBufferedProvider(NewPrioritizedProvider(...)): the same sequence.
+   kind "concat"  provider.NewConcatProvider: every key of every non-failing stream, in order,
+                  no suppression.
+
+   A stream may fail in some passes and work in others: pass p uses `errs` when p is odd and
+   `errs2` (the same set, or none = every stream recovered) when p is even.                  *)
 EXTENDS Integers, Sequences, FiniteSets, TLC, Json
-CONSTANTS Keys, MaxStreams, MaxLen
+CONSTANTS Keys, MaxStreams, MaxLen,
+          Passes,        \* consecutive invocations of the same KeyChanFunc
+          Kinds,         \* combinators explored
+          SmallStreams   \* stream-count bound for the kinds other than "prio"
 
 VARIABLES all,       \* the streams (sequence of sequences), fixed
-          errs,      \* indices of streams whose KeyChanFunc returns an error
+          kind,      \* the combinator, fixed
+          errs,      \* indices of streams whose KeyChanFunc returns an error in odd passes
+          errs2,     \*  ... in even passes
+          pass,      \* number of the current invocation, 1..Passes
           i, rest,   \* current stream and its unread suffix
           visited, out,
-          emStreams  \* ghost: key -> set of stream indices during which it was emitted
-vars == <<all, errs, i, rest, visited, out, emStreams>>
+          emStreams, \* ghost: key -> set of stream indices during which it was emitted (this pass)
+          outs       \* outputs of the completed passes
+vars == <<all, kind, errs, errs2, pass, i, rest, visited, out, emStreams, outs>>
 ToSet(s) == {s[k] : k \in 1..Len(s)}
 SeqsUpTo(S, n) == UNION {[1..k -> S] : k \in 0..n}
 N == Len(all)
+ErrsAt(p) == IF p % 2 = 1 THEN errs ELSE errs2
+ErrsNow == ErrsAt(pass)
+Dedup == kind \in {"prio", "bufprio"}
+FirstRest(p) == IF 1 \in ErrsAt(p) THEN <<>> ELSE all[1]
 
-Init == /\ \E n \in 1..MaxStreams : all \in [1..n -> SeqsUpTo(Keys, MaxLen)]
+Init == /\ kind \in Kinds
+        /\ \E n \in 1..MaxStreams : (kind = "prio" \/ n <= SmallStreams) /\ all \in [1..n -> SeqsUpTo(Keys, MaxLen)]
         /\ errs \in SUBSET (1..Len(all))
-        /\ i = 1 /\ rest = IF 1 \in errs THEN <<>> ELSE all[1]
-        /\ visited = {} /\ out = <<>> /\ emStreams = [c \in Keys |-> {}]
+        /\ errs2 \in (IF Passes = 1 THEN {errs} ELSE {errs, {}})
+        /\ pass = 1 /\ i = 1 /\ rest = IF 1 \in errs THEN <<>> ELSE all[1]
+        /\ visited = {} /\ out = <<>> /\ emStreams = [c \in Keys |-> {}] /\ outs = <<>>
 
 NextStream == /\ i <= N /\ rest = <<>>
               /\ i' = i + 1
-              /\ rest' = IF i + 1 <= N /\ (i + 1) \notin errs THEN all[i + 1] ELSE <<>>
-              /\ UNCHANGED <<all, errs, visited, out, emStreams>>
-Skip == /\ i <= N /\ rest # <<>> /\ Head(rest) \in visited
-        /\ rest' = Tail(rest) /\ UNCHANGED <<all, errs, i, visited, out, emStreams>>
-EmitKey == /\ i <= N /\ rest # <<>> /\ Head(rest) \notin visited
+              /\ rest' = IF i + 1 <= N /\ (i + 1) \notin ErrsNow THEN all[i + 1] ELSE <<>>
+              /\ UNCHANGED <<all, kind, errs, errs2, pass, visited, out, emStreams, outs>>
+Skip == /\ i <= N /\ rest # <<>> /\ Dedup /\ Head(rest) \in visited
+        /\ rest' = Tail(rest) /\ UNCHANGED <<all, kind, errs, errs2, pass, i, visited, out, emStreams, outs>>
+EmitKey == /\ i <= N /\ rest # <<>> /\ (Dedup => Head(rest) \notin visited)
            /\ out' = Append(out, Head(rest)) /\ rest' = Tail(rest)
-           /\ visited' = IF i < N THEN visited \cup {Head(rest)} ELSE visited
+           /\ visited' = IF Dedup /\ i < N THEN visited \cup {Head(rest)} ELSE visited
            /\ emStreams' = [emStreams EXCEPT ![Head(rest)] = @ \cup {i}]
-           /\ UNCHANGED <<all, errs, i>>
-Next == NextStream \/ Skip \/ EmitKey
+           /\ UNCHANGED <<all, kind, errs, errs2, pass, i, outs>>
+\* the returned KeyChanFunc is invoked again: a fresh pass, nothing remembered
+NextPass == /\ i = N + 1 /\ pass < Passes
+            /\ pass' = pass + 1 /\ outs' = Append(outs, out)
+            /\ i' = 1 /\ rest' = FirstRest(pass + 1)
+            /\ visited' = {} /\ out' = <<>> /\ emStreams' = [c \in Keys |-> {}]
+            /\ UNCHANGED <<all, kind, errs, errs2>>
+Next == NextStream \/ Skip \/ EmitKey \/ NextPass
 Spec == Init /\ [][Next]_vars /\ WF_vars(Next)
 
 Done == i = N + 1
-EmitsEverything == Done => ToSet(out) = UNION {ToSet(all[j]) : j \in (1..N) \ errs}
-SuppressesEarlier == \A c \in Keys : Cardinality(emStreams[c]) <= 1
-FirstStreamWins == \A c \in Keys : \A j \in emStreams[c] : \A k \in (1..(j-1)) \ errs : c \notin ToSet(all[k])
-Terminates == <>Done
-Emit == ~Done \/ PrintT(<<"BEHAVIOUR", ToJson([streams |-> all, errs |-> errs, out |-> out])>>)
+AllDone == Done /\ pass = Passes
+Live(p) == (1..N) \ ErrsAt(p)
+EmitsEverything == Done => ToSet(out) = UNION {ToSet(all[j]) : j \in Live(pass)}
+SuppressesEarlier == Dedup => \A c \in Keys : Cardinality(emStreams[c]) <= 1
+FirstStreamWins == Dedup => \A c \in Keys : \A j \in emStreams[c] : \A k \in (1..(j-1)) \ ErrsNow : c \notin ToSet(all[k])
+\* concat forwards everything, in order
+Flat(p) == LET F[j \in 0..N] == IF j = 0 THEN <<>> ELSE F[j - 1] \o (IF j \in ErrsAt(p) THEN <<>> ELSE all[j]) IN F[N]
+ConcatForwardsAll == (kind = "concat" /\ Done) => out = Flat(pass)
+\* every pass is a pass over the full set again: two passes in which the same streams work
+\* emit the same sequence (in particular a later pass is never thinner than the first one)
+AllOuts == IF Done THEN Append(outs, out) ELSE outs
+EveryPassSame == \A p, q \in 1..Len(AllOuts) : ErrsAt(p) = ErrsAt(q) => AllOuts[p] = AllOuts[q]
+EveryPassComplete == \A p \in 1..Len(AllOuts) : ToSet(AllOuts[p]) = UNION {ToSet(all[j]) : j \in Live(p)}
+Terminates == <>AllDone
+Emit == ~AllDone \/ PrintT(<<"BEHAVIOUR", ToJson([kind |-> kind, streams |-> all,
+                                 errs |-> [p \in 1..Passes |-> ErrsAt(p)], outs |-> Append(outs, out)])>>)
+
+\* non-vacuity control (by hand, see notes): a `visited` that survives NextPass violates
+\* EveryPassSame / EveryPassComplete in the model.
 =============================================================================
